@@ -108,7 +108,17 @@ pub async fn add_node(
     let mut added_service_data = vec![];
     let mut failed_service_data = vec![];
 
-    let current_node_count = node_registry.nodes.len() as u16;
+    // New services are numbered after the highest number in the registry. This normally equals the
+    // number of entries (removed services keep their entry), but a batch in which one install failed
+    // leaves a gap; counting entries would then hand out a name and data directory that another
+    // service already has.
+    let current_node_count = node_registry
+        .nodes
+        .iter()
+        .map(|node| node.number)
+        .max()
+        .unwrap_or(0)
+        .max(node_registry.nodes.len() as u16);
     let target_node_count = current_node_count + options.count.unwrap_or(1);
 
     let mut node_number = current_node_count + 1;
